@@ -4,6 +4,7 @@ package c12
 import (
 	"fmt"
 	"math"
+	"os"
 	"strings"
 	"sync"
 	"sync/atomic"
@@ -40,16 +41,20 @@ type SOp struct {
 }
 
 type Case struct {
-	Binary   bool    `json:"binary"`
-	SizeMode string  `json:"sizeMode"` // min default big
-	Slack    int     `json:"slack"`
-	Big      int     `json:"big,omitempty"`
-	Common   pbt.M   `json:"common,omitempty"`
-	Queue    int     `json:"queue"`
-	PreAge   int     `json:"preAge,omitempty"`
-	Metrics  []MSpec `json:"metrics"`
-	Stream   []SOp   `json:"stream"`
-	Strategy string  `json:"strategy"`
+	Binary   bool   `json:"binary"`
+	SizeMode string `json:"sizeMode"` // min default big
+	Slack    int    `json:"slack"`
+	Big      int    `json:"big,omitempty"`
+	Common   pbt.M  `json:"common,omitempty"`
+	// IncludeHost: 1: Options.IncludeHost without a host among the common tags (the reporter adds the
+	// machine's host name as one more common tag); 2: with a common tag host=custom-host (kept);
+	// 3: with a common tag host="" (replaced by the host name). The tag is part of every datagram.
+	IncludeHost int     `json:"includeHost,omitempty"`
+	Queue       int     `json:"queue"`
+	PreAge      int     `json:"preAge,omitempty"`
+	Metrics     []MSpec `json:"metrics"`
+	Stream      []SOp   `json:"stream"`
+	Strategy    string  `json:"strategy"`
 	// Pred: before the reporter under test is built, ANOTHER reporter exists in the process (its own
 	// destination): 1 same wire protocol, closed again; 2 the OTHER wire protocol, closed again; 3 the
 	// other protocol, still open during the whole case. Reporters are independent objects: what one
@@ -86,6 +91,9 @@ func gen(t *rapid.T) Case {
 	c.Slack = rapid.SampledFrom([]int{0, 0, 1, 2, 7, 40, 300}).Draw(t, "slack")
 	c.Big = rapid.IntRange(2000, 65000).Draw(t, "big")
 	c.Common = genTags(t, 8)
+	if rapid.IntRange(0, 3).Draw(t, "includeHost?") == 0 {
+		c.IncludeHost = rapid.IntRange(1, 3).Draw(t, "includeHost")
+	}
 	c.Queue = rapid.SampledFrom([]int{1, 2, 16, 4096}).Draw(t, "queue")
 	c.Pred = rapid.SampledFrom([]int{0, 0, 0, 1, 2, 2, 3}).Draw(t, "pred")
 	if rapid.IntRange(0, 9).Draw(t, "manySets?") == 0 {
@@ -187,6 +195,27 @@ func run(c Case) (pbt.Outcome, error) {
 	common := []m3thrift.MetricTag{{Name: "service", Value: "svc"}, {Name: "env", Value: "test"}}
 	for k, v := range c.Common {
 		common = append(common, m3thrift.MetricTag{Name: string(k), Value: string(v)})
+	}
+	commonOpt := c.Common.Std()
+	if c.IncludeHost > 0 {
+		hn, herr := os.Hostname()
+		if herr != nil {
+			return out, fmt.Errorf("harness: %v", herr)
+		}
+		if commonOpt == nil {
+			commonOpt = map[string]string{}
+		}
+		switch c.IncludeHost {
+		case 2:
+			commonOpt["host"] = "custom-host"
+			common = append(common, m3thrift.MetricTag{Name: "host", Value: "custom-host"})
+		case 3:
+			commonOpt["host"] = ""
+			common = append(common, m3thrift.MetricTag{Name: "host", Value: hn})
+		default:
+			common = append(common, m3thrift.MetricTag{Name: "host", Value: hn})
+		}
+		out.Classes = append(out.Classes, "include-host")
 	}
 	mtags := func(m pbt.M) []m3thrift.MetricTag {
 		var r []m3thrift.MetricTag
@@ -296,7 +325,7 @@ func run(c Case) (pbt.Outcome, error) {
 		proto = m3.Binary
 	}
 	r, err := m3.NewReporter(m3.Options{
-		HostPorts: []string{sink.Addr}, Service: "svc", Env: "test", CommonTags: c.Common.Std(),
+		HostPorts: []string{sink.Addr}, Service: "svc", Env: "test", CommonTags: commonOpt, IncludeHost: c.IncludeHost > 0,
 		Protocol: proto, MaxQueueSize: c.Queue, MaxPacketSizeBytes: int32(maxPacket),
 	})
 	if err != nil {
